@@ -8,290 +8,39 @@ exactly those decisions, so the theorems are re-checked against what the headers
 say now.  A construct outside the supported subset is not guessed: the leaf is
 reported as failed, nothing is written for it, and the dependent .vo fails.
 
-usage: leafgen.py [--json]     (writes only files whose content changed)"""
+Leaf translators live in tools/leaves/*.py (each exports LEAVES = [(name, fn)];
+fn(out) fills out[<file name under coq/gen>] = <Gallina text> or raises Untranslatable).
+
+usage: leafgen.py [--json] [--only name,name]    (writes only files whose content changed)"""
 import hashlib
+import importlib
 import json
 import os
-import re
-import subprocess
 import sys
 
-ROOT = '/verif'
-REPO = '/repo'
-GEN = os.path.join(ROOT, 'coq', 'gen')
-INC = os.path.join(REPO, 'include')
+sys.path.insert(0, os.path.dirname(os.path.abspath(__file__)))
+from leafcore import GEN, Untranslatable  # noqa: E402
 
 
-class Untranslatable(Exception):
-    pass
-
-
-def clang_ast(tu_text, filt, std='c++17'):
-    """returns the list of JSON trees clang dumps for declarations matching the filter"""
-    os.makedirs(os.path.join(ROOT, 'build'), exist_ok=True)
-    tu = os.path.join(ROOT, 'build', 'leafgen_tu_%d.cpp' % os.getpid())
-    with open(tu, 'w') as fh:
-        fh.write(tu_text)
-    try:
-        p = subprocess.run(['clang++', '-std=' + std, '-I' + INC, '-fsyntax-only', '-Xclang', '-ast-dump=json',
-                            '-Xclang', '-ast-dump-filter=' + filt, tu],
-                           stdout=subprocess.PIPE, stderr=subprocess.PIPE, universal_newlines=True, timeout=300)
-    finally:
-        try:
-            os.unlink(tu)
-        except OSError:
-            pass
-    if p.returncode != 0:
-        raise Untranslatable('clang failed on filter %s: %s' % (filt, p.stderr[-400:]))
-    out = p.stdout
-    trees = []
-    dec = json.JSONDecoder()
-    i = 0
-    while True:
-        j = out.find('{', i)
-        if j < 0:
-            break
-        # skip "Dumping xxx:" lines
-        try:
-            obj, end = dec.raw_decode(out, j)
-        except ValueError:
-            break
-        trees.append(obj)
-        i = end
-    return trees
-
-
-def walk(n):
-    yield n
-    for c in n.get('inner', []) or []:
-        if isinstance(c, dict):
-            yield from walk(c)
-
-
-def strip(n):
-    """skip wrappers that do not change the value"""
-    while n.get('kind') in ('ImplicitCastExpr', 'ParenExpr', 'ExprWithCleanups', 'MaterializeTemporaryExpr',
-                            'CXXBindTemporaryExpr', 'ConstantExpr', 'CXXFunctionalCastExpr', 'CXXStaticCastExpr',
-                            'SubstNonTypeTemplateParmExpr'):
-        inner = [c for c in n.get('inner', []) if isinstance(c, dict)]
-        if len(inner) != 1:
-            break
-        n = inner[0]
-    return n
-
-
-def kids(n):
-    return [c for c in n.get('inner', []) or [] if isinstance(c, dict) and c.get('kind')]
-
-
-def find_function(trees, name, pred=None):
-    """first function/method declaration named `name` that has a body"""
-    for t in trees:
-        for n in walk(t):
-            if n.get('kind') in ('CXXMethodDecl', 'FunctionDecl', 'CXXConstructorDecl', 'CXXDestructorDecl') and n.get('name') == name:
-                body = [c for c in kids(n) if c.get('kind') == 'CompoundStmt']
-                if body and (pred is None or pred(n)):
-                    return n, body[0]
-    raise Untranslatable('function %s not found' % name)
-
-
-# ----------------------------------------------------------------------------------------
-# expression translation: atoms are named by a caller-supplied function
-
-BINOPS = {'&&': 'andb', '||': 'orb'}
-CMPOPS = {'==': ('N.eqb', False), '!=': ('N.eqb', True), '<': ('N.ltb', False), '<=': ('N.leb', False),
-          '>': ('N.ltb', 'swap'), '>=': ('N.leb', 'swap')}
-
-
-class Tr:
-    def __init__(self, atom, cmp_scope='N'):
-        self.atom = atom          # node -> Gallina term or None
-        self.scope = cmp_scope
-
-    def expr(self, n):
-        n = strip(n)
-        a = self.atom(n)
-        if a is not None:
-            return a
-        k = n.get('kind')
-        if k == 'BinaryOperator' or (k == 'CXXOperatorCallExpr' and len(kids(n)) == 3):
-            if k == 'BinaryOperator':
-                op = n.get('opcode')
-                l, r = kids(n)
-            else:
-                cs = kids(n)
-                fn = strip(cs[0])
-                m = re.match(r'operator(.+)', fn.get('referencedDecl', {}).get('name', ''))
-                if not m:
-                    raise Untranslatable('operator call without name')
-                op = m.group(1)
-                l, r = cs[1], cs[2]
-            if op in BINOPS:
-                return '(%s %s %s)' % (BINOPS[op], self.expr(l), self.expr(r))
-            if op in CMPOPS:
-                f, mode = CMPOPS[op]
-                f = f.replace('N.', self.scope + '.')
-                le, re_ = self.expr(l), self.expr(r)
-                if mode == 'swap':
-                    return '(%s %s %s)' % (f, re_, le)
-                if mode is True:
-                    return '(negb (%s %s %s))' % (f, le, re_)
-                return '(%s %s %s)' % (f, le, re_)
-            raise Untranslatable('binary operator %s' % op)
-        if k == 'UnaryOperator' and n.get('opcode') == '!':
-            return '(negb %s)' % self.expr(kids(n)[0])
-        if k == 'IntegerLiteral':
-            return '%s%%%s' % (n.get('value'), self.scope)
-        if k == 'CXXBoolLiteralExpr':
-            return 'true' if n.get('value') else 'false'
-        raise Untranslatable('expression kind %s' % k)
-
-
-def member_name(n):
-    n = strip(n)
-    if n.get('kind') == 'MemberExpr':
-        return n.get('name')
-    if n.get('kind') == 'CXXDependentScopeMemberExpr':
-        return n.get('member')
-    if n.get('kind') == 'DeclRefExpr':
-        return n.get('referencedDecl', {}).get('name')
-    return None
-
-
-def find_all(n, kind):
-    return [x for x in walk(n) if x.get('kind') == kind]
-
-
-# ----------------------------------------------------------------------------------------
-# leaves
-
-def leaf_cl(out):
-    """callbacklist.h : the visit condition of doForEachIf, the wrap branch of getNextCounter,
-    the removed-marker guards of remove / insert / ownsHandle"""
-    tu = '#include "eventpp/callbacklist.h"\ntemplate class eventpp::CallbackList<void(int)>;\n'
-    trees = clang_ast(tu, 'CallbackListBase')
-
-    # --- visit condition: the `if` inside the while loop of doForEachIf
-    fn, body = find_function(trees, 'doForEachIf')
-    whiles = find_all(body, 'WhileStmt')
-    if len(whiles) != 1:
-        raise Untranslatable('doForEachIf: expected one while loop')
-    wbody = kids(whiles[0])[-1]
-    ifs = [s for s in kids(wbody) if s.get('kind') == 'IfStmt']
-    if len(ifs) != 1:
-        raise Untranslatable('doForEachIf: expected one if in the loop body')
-    cond = kids(ifs[0])[0]
-
-    def atom(n):
-        nm = member_name(n)
-        if n.get('kind') in ('MemberExpr', 'CXXDependentScopeMemberExpr') and nm == 'counter':
-            return 'node_ctr'
-        if n.get('kind') == 'DeclRefExpr' and nm == 'counter':
-            return 'captured'
-        if n.get('kind') == 'DeclRefExpr' and nm == 'removedCounter':
-            return 'removed_marker'
-        return None
-    visit = Tr(atom).expr(cond)
-    # position of the step `node = node->next` relative to the visit: must be after the if
-    stmts = kids(wbody)
-    idx_if = stmts.index(ifs[0])
-    step_after = any(('next' == (member_name(x) or '')) for s in stmts[idx_if + 1:] for x in walk(s))
-    step_before = any(('next' == (member_name(x) or '')) for s in stmts[:idx_if] for x in walk(s))
-    if not step_after or step_before:
-        raise Untranslatable('doForEachIf: the step node=node->next is not after the visit')
-
-    # removed marker value
-    removed_val = None
-    for t in trees:
-        for n in walk(t):
-            if n.get('kind') == 'EnumConstantDecl' and n.get('name') == 'removedCounter':
-                lits = find_all(n, 'IntegerLiteral')
-                if lits:
-                    removed_val = lits[0].get('value')
-    if removed_val is None:
-        raise Untranslatable('removedCounter value not found')
-
-    # --- wrap branch of getNextCounter: `if(result == K)`, nodes rewritten to V
-    fn, body = find_function(trees, 'getNextCounter')
-    ifs = [s for s in kids(body) if s.get('kind') == 'IfStmt']
-    if len(ifs) != 1:
-        raise Untranslatable('getNextCounter: expected one if')
-
-    def atom2(n):
-        if n.get('kind') == 'DeclRefExpr' and member_name(n) == 'result':
-            return 'result'
-        return None
-    wrap_test = Tr(atom2).expr(kids(ifs[0])[0])
-    then = kids(ifs[0])[1]
-    assigns = [x for x in walk(then) if x.get('kind') == 'BinaryOperator' and x.get('opcode') == '='
-               and member_name(kids(x)[0]) == 'counter']
-    if len(assigns) != 1:
-        raise Untranslatable('getNextCounter: expected one counter rewrite in the wrap branch')
-    rv = strip(kids(assigns[0])[1])
-    if rv.get('kind') != 'IntegerLiteral':
-        raise Untranslatable('getNextCounter: rewrite value is not a literal')
-    rewrite_val = rv.get('value')
-    # second draw inside the branch
-    incs = [x for x in walk(then) if x.get('kind') in ('UnaryOperator', 'CXXOperatorCallExpr')
-            and (x.get('opcode') == '++' or any((strip(c).get('referencedDecl', {}) or {}).get('name') == 'operator++' for c in kids(x)))]
-    second_draw = len(incs) >= 1
-    # loop walks from head through next
-    walks_next = any(member_name(x) == 'next' for x in walk(then)) and any(member_name(x) == 'head' for x in walk(then))
-    if not walks_next:
-        raise Untranslatable('getNextCounter: wrap loop does not walk head->next')
-
-    # --- guards: is the unlink in remove / the walk in ownsHandle / doInsert in insert guarded by counter != removedCounter
-    def guarded(fname, callee):
-        fn, body = find_function(trees, fname)
-        for i in find_all(body, 'IfStmt'):
-            cond = kids(i)[0]
-            names = set(member_name(x) for x in walk(cond))
-            if 'counter' in names and 'removedCounter' in names:
-                # the guarded action must be inside this if's then-branch
-                then = kids(i)[1]
-                if callee is None or any(member_name(x) == callee or (x.get('kind') == 'UnresolvedMemberExpr' and x.get('name') == callee)
-                                         or (x.get('kind') == 'UnresolvedLookupExpr' and x.get('name') == callee) for x in walk(then)):
-                    # and the test must be an inequality
-                    txt = Tr(lambda n: ('node_ctr' if member_name(n) == 'counter' and n.get('kind') != 'DeclRefExpr' else
-                                        ('removed_marker' if member_name(n) == 'removedCounter' else
-                                         ('true' if n.get('kind') in ('DeclRefExpr', 'CXXOperatorCallExpr', 'CXXMemberCallExpr') and member_name(n) not in ('counter', 'removedCounter') and n.get('kind') != 'BinaryOperator' else None)))).expr(cond)
-                    if 'negb (N.eqb node_ctr removed_marker)' in txt or 'negb (N.eqb removed_marker node_ctr)' in txt:
-                        return True
-        return False
-    g_remove = guarded('remove', 'doFreeNode')
-    g_insert = guarded('insert', 'doInsert')
-    g_owns = guarded('ownsHandle', None)
-
-    out['GenCL.v'] = '''(* GENERATED by tools/leafgen.py from include/eventpp/callbacklist.h — do not edit *)
-From Coq Require Import NArith Bool.
-Local Open Scope N_scope.
-
-(* enum : Counter { removedCounter = %s } *)
-Definition removed_marker : N := %s.
-
-(* doForEachIf: if(<this condition>) { visit }   — the step node = node->next follows the visit *)
-Definition visit_cond (node_ctr captured : N) : bool := %s.
-
-(* getNextCounter: if(<this test on result>) { every linked node's counter := rewrite_value; draw again } *)
-Definition wrap_test (result : N) : bool := %s.
-Definition wrap_rewrite_value : N := %s.
-Definition wrap_second_draw : bool := %s.
-
-(* is the action guarded by `node->counter != removedCounter` (under the mutex)? *)
-Definition remove_checks_removed : bool := %s.
-Definition insert_checks_removed : bool := %s.
-Definition owns_checks_removed : bool := %s.
-''' % (removed_val, removed_val, visit, wrap_test, rewrite_val, 'true' if second_draw else 'false',
-       str(g_remove).lower(), str(g_insert).lower(), str(g_owns).lower())
-
-
-LEAVES = [('callbacklist', leaf_cl)]
+def all_leaves():
+    out = []
+    d = os.path.join(os.path.dirname(os.path.abspath(__file__)), 'leaves')
+    for f in sorted(os.listdir(d)):
+        if f.endswith('.py') and not f.startswith('_'):
+            mod = importlib.import_module('leaves.' + f[:-3])
+            out += list(mod.LEAVES)
+    return out
 
 
 def main():
     os.makedirs(GEN, exist_ok=True)
+    only = None
+    if '--only' in sys.argv:
+        only = set(sys.argv[sys.argv.index('--only') + 1].split(','))
     info = {'leaves': {}, 'failed': []}
-    for name, fn in LEAVES:
+    for name, fn in all_leaves():
+        if only is not None and name not in only:
+            continue
         out = {}
         try:
             fn(out)
